@@ -320,4 +320,13 @@ def rule_r6(ctx):
     return rr
 
 
-RULES = [("C14-R1", rule_r1), ("C14-R2", rule_r2), ("C14-R3", rule_r34), ("C14-R5", rule_r5), ("C14-R6", rule_r6)]
+def rule_c06r4(ctx):
+    """A name bound by an import statement is a local of the scope that imports it (symtable:
+    is_imported, not is_assigned): where nested scopes find it is decided by the birthplace predicate
+    (shared rule C06-R4, whose symbol models include imported names)."""
+    from .c06 import rule_r4 as r
+
+    return r(ctx)
+
+
+RULES = [("C06-R4", rule_c06r4), ("C14-R1", rule_r1), ("C14-R2", rule_r2), ("C14-R3", rule_r34), ("C14-R5", rule_r5), ("C14-R6", rule_r6)]
